@@ -742,4 +742,31 @@ def callWithObject (L : Lib) (m : Meth) (r : Recv) (sc : Script) : Out × Str :=
       | (.val v, st) => (.res (numberToString L x (.num v)), st.log)
 
 
+/-! ### parseInt with object arguments: ToString(string) first, then ToInt32(radix), always -/
+
+/-- the string argument: a primitive string, an object whose toString logs 'S' (83) and returns the string,
+    or an object whose toString throws -/
+inductive StrArg | prim (s : Str) | obj (s : Str) | throws
+deriving Repr
+
+inductive POut | num (x : FV) | typeError | thrown
+deriving DecidableEq, Repr
+
+/-- builtinGlobalParseInt (builtin.go:71) called with a (possibly scripted) string argument and a scripted
+    radix object: `call.Argument(0).string()` first; since ae747ea `toInt32(call.Argument(1))` next, for every
+    input (an empty trimmed string returned NaN before that conversion); then the digits. -/
+def parseIntWithObjects (sa : StrArg) (sc : Script) : POut × Str :=
+  let strStep : Option Str × Str := match sa with
+    | .prim s => (some s, [])
+    | .obj s => (some s, [83])
+    | .throws => (none, [83])
+  match strStep with
+  | (none, log) => (.thrown, log)
+  | (some s, log) =>
+    match convert sc ⟨0, 0, log⟩ with
+    | (.thrown, st) => (.thrown, st.log)
+    | (.typeError, st) => (.typeError, st.log)
+    | (.val v, st) => (.num (parseInt s (.num v)), st.log)
+
+
 end OttoVerif.C06
